@@ -41,6 +41,7 @@ typedef struct pv_ctx {
     const char* crash_path;
     int verbose;              /* replay mode prints details */
     int positive_control;     /* driver specific (C16) */
+    const char* tag;          /* --tag: free text passed by the orchestrator (e.g. build flavour) */
     uint64_t scale_pct;       /* workload scale in percent (PV_SCALE), default 100 */
 } pv_ctx;
 extern pv_ctx pv;
@@ -83,7 +84,9 @@ void pv_sample(const char* cls, const char* fmt, ...) __attribute__((format(prin
 void pv_violation(const char* key, const char* fmt, ...) __attribute__((format(printf, 2, 3)));
 void pv_info(const char* key, const char* fmt, ...) __attribute__((format(printf, 2, 3)));
 void pv_fatal(const char* fmt, ...) __attribute__((format(printf, 1, 2), noreturn));  /* harness failure: exit 2 */
-void pv_set_flag(const char* name, int v);              /* boolean facts for the evidence (e.g. exhaustive) */
+void pv_set_flag(const char* name, int v);
+void pv_transcript(uint64_t h);                          /* per-case transcript digest (C19, C20): written to <out>.transcript */
+void pv_tlog(const char* fmt, ...) __attribute__((format(printf, 1, 2)));  /* transcript text, printed in --only/--verbose mode */              /* boolean facts for the evidence (e.g. exhaustive) */
 uint64_t pv_violation_count(void);
 
 /* small helpers */
@@ -285,5 +288,12 @@ int pv_overlap(int a, int b, const unsigned** idx_out);
 bool pv_gen_ambiguous(pv_rng* r, int a, int b, unsigned coin, unsigned enabled, unsigned d[16], pv_mseed* seed_out);
 /* the expected KDF stub output for given arguments (mode 0) */
 void pv_kdf_mix(const uint8_t* pw, size_t pwlen, const uint8_t* salt, size_t saltlen, uint64_t iterations, uint8_t* key, size_t keylen);
+
+
+/* grammar-based strings (pv_gen.c) */
+typedef struct pv_gstr { char* s; size_t len; const char* cls; int lang; unsigned coin; pv_mseed seed; } pv_gstr;
+void pv_gen_string(pv_rng* r, unsigned enabled, pv_gstr* out);
+void pv_gstr_free(pv_gstr* g);
+char* pv_gen_password(pv_rng* r, const char** cls_out);
 
 #endif
